@@ -1,6 +1,6 @@
 (** C19 — entry points of the correspondence check (model side). *)
 From Coq Require Import ZArith List Bool.
-From KV Require Import Base.IEEE Base.Outcome Base.Num Base.Corr C19.Model C19.ModelF32.
+From KV Require Import Base.IEEE Base.Outcome Base.Num Base.Corr C19.Model C19.ModelF32 C19.ModelHandle.
 Import ListNotations.
 Local Open Scope Z_scope.
 
@@ -14,7 +14,10 @@ Inductive case :=
 | CMap (lo hi olo ohi ekind p input : Z) (oracle : list (Z * Z * Z))
 | CDb (db : Z) (oracle : list (Z * Z * Z))
 | CPan (l r p : Z) | CMono (l r : Z)
-| CSemi (s : Z) (oracle : list (Z * Z * Z)).
+| CSemi (s : Z) (oracle : list (Z * Z * Z))
+(* the time a ClockHandle reports: from the reported time (tk, fr), one callback whose internal chunks have
+   [frames] frames each, clock speed (kind, x), device rate sr *)
+| CHandle (tk fr kind x sr : Z) (frames : list Z).
 
 (** libm is supplied per case as a finite table [(x, y, pow x y)] of bit patterns recorded by
     the harness from the platform's libm; a missing entry yields a sentinel value, which shows
@@ -76,4 +79,6 @@ Definition run (c : case) : list Z :=
   | CMono l r => let '(a, b) := as_mono (f32_of_bits l) (f32_of_bits r) in
                  [bits_of_f32 a; bits_of_f32 b]
   | CSemi s tab => [bits_of_f64 (semitones_to_rate (powf64_tab tab (Z64 2)) (f64_of_bits s))]
+  | CHandle tk fr kind x sr frames =>
+      enc_ct (handle_time (mk_ct tk fr) (map (chunk_increment (mk_speed kind x) sr) frames))
   end.
